@@ -70,6 +70,80 @@ func gridOf(start, end, step int64) []int64 {
 	return g
 }
 
+// Watchdog for every call of splitQuery.  The model proves that the split terminates (C41 theorems), so its answer is
+// always a normal split; the real code gets two guards, and a call that trips one is answered `hang` and raises the
+// oracle class split-does-not-terminate with the op as failing input:
+//  1. a pre-flight that follows splitQuery's loop header with the REAL nextIntervalBoundary (hook) and counts the
+//     sub-requests it would produce; more than c41MaxSubs (no generated or corpus op comes near) = does not terminate,
+//     and splitQuery is not called (its loop would spin on CPU and allocate without bound);
+//  2. the call itself runs in a goroutine with a deadline of c41Deadline; a call that is still running then cannot be
+//     stopped, so after reporting it the generator stops issuing ops (c41Runaway) and the run ends with the violation.
+const (
+	c41MaxSubs  = 1000000
+	c41Deadline = 2 * time.Second
+)
+
+var c41Runaway bool
+
+func c41RangeSubs(start, end, step int64, interval time.Duration) (n int) {
+	defer func() {
+		if recover() != nil { // e.g. a zero step or interval: the real call shows the panic
+			n = 0
+		}
+	}()
+	if start == end {
+		return 1
+	}
+	for s := start; s < end; s = queryfrontend.VerifNextIntervalBoundary(s, step, interval) + step {
+		n++
+		if n > c41MaxSubs {
+			return n
+		}
+	}
+	return n
+}
+
+type c41SplitRes struct {
+	reqs  []queryrange.Request
+	err   error
+	panic any
+}
+
+// c41Split is VerifSplitQuery under the watchdog; hang = true when a guard tripped (already reported).
+func c41Split(c *hlib.Ctx, orig queryrange.Request, interval time.Duration) (reqs []queryrange.Request, err error, hang bool) {
+	if tr, ok := orig.(*queryfrontend.ThanosQueryRangeRequest); ok {
+		n := c41RangeSubs(tr.Start, tr.End, tr.Step, interval)
+		c.Count("split:subrequests:" + bucket(n))
+		if n > c41MaxSubs {
+			c.Violation("split-does-not-terminate", fmt.Sprintf("splitQuery(start %d, end %d, step %d, interval %s): following its loop with the real nextIntervalBoundary yields more than %d sub-requests (the start of the next sub-request does not advance)",
+				tr.Start, tr.End, tr.Step, interval, c41MaxSubs))
+			return nil, nil, true
+		}
+	}
+	done := make(chan c41SplitRes, 1)
+	go func() {
+		var r c41SplitRes
+		defer func() {
+			if p := recover(); p != nil {
+				r.panic = p
+			}
+			done <- r
+		}()
+		r.reqs, r.err = queryfrontend.VerifSplitQuery(orig, interval)
+	}()
+	select {
+	case r := <-done:
+		if r.panic != nil {
+			panic(r.panic)
+		}
+		return r.reqs, r.err, false
+	case <-time.After(c41Deadline):
+		c41Runaway = true
+		c.Violation("split-does-not-terminate", fmt.Sprintf("splitQuery(start %d, end %d, step %d, interval %s) has not returned after %s", orig.GetStart(), orig.GetEnd(), orig.GetStep(), interval, c41Deadline))
+		return nil, nil, true
+	}
+}
+
 func execC41(c *hlib.Ctx, tok []string) string {
 	if len(tok) == 0 {
 		return "bad-op"
@@ -87,7 +161,10 @@ func execC41(c *hlib.Ctx, tok []string) string {
 		interval := time.Duration(iv) * time.Millisecond
 		orig := &queryfrontend.ThanosQueryRangeRequest{Path: "/api/v1/query_range", Start: start, End: end, Step: step,
 			Query: "up", Dedup: true, MaxSourceResolution: 1234, LookbackDelta: 77}
-		reqs, err := queryfrontend.VerifSplitQuery(orig, interval)
+		reqs, err, hang := c41Split(c, orig, interval)
+		if hang {
+			return "hang"
+		}
 		if err != nil {
 			return "err:" + err.Error()
 		}
@@ -134,7 +211,10 @@ func execC41(c *hlib.Ctx, tok []string) string {
 		} else {
 			orig = &queryfrontend.ThanosSeriesRequest{Path: "/api/v1/series", Start: start, End: end, Dedup: true}
 		}
-		reqs, err := queryfrontend.VerifSplitQuery(orig, interval)
+		reqs, err, hang := c41Split(c, orig, interval)
+		if hang {
+			return "hang"
+		}
 		if err != nil {
 			return "err:" + err.Error()
 		}
@@ -214,7 +294,7 @@ func genC41(c *hlib.Ctx) {
 	r := c.R
 	// --- small scope, dense: every branch of the loop with tiny numbers
 	n := c.N(1500, 60000)
-	for i := 0; i < n; i++ {
+	for i := 0; i < n && !c41Runaway; i++ {
 		start := r.I64Range(-12, 30)
 		span := r.I64Range(0, 45)
 		step := r.I64Range(1, 8)
@@ -228,7 +308,7 @@ func genC41(c *hlib.Ctx) {
 	steps := []int64{1, 999, msSecond, 15 * msSecond, 30 * msSecond, msMinute, 5 * msMinute, msHour, 2 * msHour, 13 * msHour, 25 * msHour, 7919, 86400001}
 	ivs := []int64{msHour, 12 * msHour, msDay, 7 * msDay, 90 * msMinute, 3600001, 30 * msSecond}
 	n = c.N(1500, 60000)
-	for i := 0; i < n; i++ {
+	for i := 0; i < n && !c41Runaway; i++ {
 		step := steps[r.Intn(len(steps))]
 		iv := ivs[r.Intn(len(ivs))]
 		var start int64
@@ -275,7 +355,7 @@ func genC41(c *hlib.Ctx) {
 	}
 	// --- labels / series
 	n = c.N(1200, 40000)
-	for i := 0; i < n; i++ {
+	for i := 0; i < n && !c41Runaway; i++ {
 		op := "split.labels"
 		if r.Bool() {
 			op = "split.series"
@@ -309,7 +389,7 @@ func genC41(c *hlib.Ctx) {
 	}
 	// --- nextIntervalBoundary and stepAlign on their own, plus the malformed stream
 	n = c.N(1500, 50000)
-	for i := 0; i < n; i++ {
+	for i := 0; i < n && !c41Runaway; i++ {
 		if r.Bool() {
 			c.Do(fmt.Sprintf("split.nib %d %d %d", r.I64Range(-40, 60), r.I64Range(1, 9), r.I64Range(1, 12)), true)
 		} else {
@@ -325,7 +405,7 @@ func genC41(c *hlib.Ctx) {
 		c.Count("align")
 	}
 	n = c.N(300, 5000)
-	for i := 0; i < n; i++ {
+	for i := 0; i < n && !c41Runaway; i++ {
 		switch r.Intn(6) {
 		case 0: // end before start: no sub-request, nothing evaluated
 			s := r.I64Range(-20, 50)
